@@ -140,6 +140,10 @@ def run(F, ck, tier):
 
     # ---------------------------------------------------------------- R18.2 pins
     pins.check(F, ck, 'R18.2')
+    # the STARK trace length comes from the proof, a fixed FRI schedule from the configuration: the validator relates them
+    E.check('R18.2', dict(id='stark.schedule-fits', fn='starky::verifier::validate_proof_shape', crate='starky', kind='guard',
+                          src=['c:total_arities', 'c:recover_degree_bits'], ctx={'uncond': True},
+                          why='the FRI shape validation subtracts the arities of the schedule from the (proof-derived) domain size: an Err-guard must make sure the schedule fits'))
 
     # ---------------------------------------------------------------- R18.3 validate before use
     ventries = [
@@ -196,6 +200,7 @@ def run(F, ck, tier):
                 continue
             seen.add(key)
             ck.ob('R18.3', key, False, '%s uses the proof in %s() %s: a malformed proof reaches this call unvalidated' % (fn.qual, e.q, 'before the shape validator runs' if validated else '(there is no validation at all on this path)'), e.loc())
+    assert_sites(F, ck, C)
     chunk_sites(F, ck, C)
     if tier == 'thorough':
         census(F, ck, C)
@@ -204,6 +209,76 @@ def run(F, ck, tier):
     ck.undecided += ['panic-freedom of the whole verifier after validation (needs length reasoning; see thorough census)', 'that accepted proofs are valid (C02/C03/C05)']
     return ('Decides structural necessary conditions of C18: totality of validators and decoders w.r.t. input-derived operands, exhaustive length pinning of the proof type family, '
             'validate-before-use at each entry point and absence of input-sized allocation. Does not decide panic-freedom of all post-validation code.')
+
+
+def assert_sites(F, ck, C):
+    """R18.7: an assert! / debug_assert! whose condition looks at the LENGTH or PRESENCE of a part of the proof is a panic on malformed
+    input unless an Err-returning guard on that same part runs before it, and runs for every configuration: a guard that sits in
+    one arm of an `if` on trusted data (e.g. `if stark.uses_lookups() {..} else {..}`) only counts if the other arm has one too."""
+    ck.rule('R18.7', 'every assert / debug_assert on the length or presence of a proof part in a verification closure is preceded by an Err-returning guard on that part which runs in every configuration')
+    entries = (('plonk::verifier::verify', 'plonky2', {'proof_with_pis'}, 'plonky2::plonk::proof::ProofWithPublicInputs<F, C, D>'),
+               ('starky::verifier::verify_stark_proof', 'starky', {'proof_with_pis'}, 'starky::proof::StarkProofWithPublicInputs<F, C, D>'))
+    nas = 0
+    for q, crate, roots, ty in entries:
+        root = F.one(q, crate=crate)
+        if root is None:
+            ck.ob('R18.7', 'anchor:' + q, False, 'ANCHOR-MISSING ' + q)
+            continue
+        roots = robust_roots(root, roots)
+
+        def inl(c, d, ev):
+            t = [f for f in C.targets(c, d) if f.crate in ('plonky2', 'starky', 'plonky2_util')]
+            t = [f for f in t if not any(x in f.file for x in ('hash/poseidon', 'hash/keccak', 'hash/hashing', 'gates/', 'gadgets/', 'hash/arch'))]
+            return t[:4]
+        fl = flow.Flow(F, root, inline=inl, depth=9)
+        req = []
+        pname = sorted(roots)[0]
+        pins.required_pins(F, ty, 'p:' + pname, req)
+        valid = {a for alts, _ in req for a in alts}
+        # effective pins so far, in event order
+        seen = []          # (path, unconditional?, (if-node id, arm))
+        done = set()
+        for e in fl.events:
+            if e.kind == 'guard':
+                for a in e.pins:
+                    frames = [fr for fr in e.ctx if fr[0] == 'if' and not any(c == a or c.startswith(a + '.') or c.startswith(a + '[') or a.startswith(c + '.') or a.startswith(c + '[') for c in flow.flat(fr[1]) if c.startswith('p:'))]
+                    frames = [fr for fr in frames if flow.flat(fr[1])]
+                    if not frames:
+                        seen.append((a, True, None))
+                    else:
+                        fr = frames[-1]
+                        seen.append((a, False, (id(fr[2]), fr[3] if len(fr) > 3 else None)))
+            elif e.kind == 'assert':
+                # only assertions about shape: the condition mentions len()/is_some()/is_none()/is_empty() of a proof path
+                lp = set(e.pins)
+                if not lp:
+                    continue
+                tp = [a for a in lp if a.startswith('p:') and a[2:].split('.')[0].split('[')[0] in roots]
+                # only genuine access paths of the proof type (the type walk of the pin rule enumerates them)
+                tp = [a for a in tp if a in valid]
+                if not tp:
+                    continue
+                key = 'assert:%s:%s' % (e.fn.qual, '+'.join(sorted(x[2:].split('.', 1)[-1] for x in tp))[:80])
+                if key in done:
+                    continue
+                done.add(key)
+                nas += 1
+                bad = []
+                for a in tp:
+                    cov = [s_ for s_ in seen if s_[0] == a or a.startswith(s_[0] + '[') or s_[0].startswith(a + '[')]
+                    ok = any(u for _, u, _ in cov)
+                    if not ok:
+                        arms = {}
+                        for _, u, fa in cov:
+                            if fa:
+                                arms.setdefault(fa[0], set()).add(str(fa[1]))
+                        ok = any(len(v) >= 2 for v in arms.values())
+                    if not ok:
+                        bad.append(a[2:])
+                ck.ob('R18.7', key, not bad, 'guarded before it is asserted' if not bad else
+                      'ASSERTION ON UNVALIDATED PROOF SHAPE: %s asserts (%s) on %s, but no Err-returning guard on that part runs before it in every configuration (a guard in one arm of a configuration-dependent `if` is not enough): '
+                      'a malformed proof panics (in debug builds for debug_assert!) instead of being rejected' % (e.fn.qual, e.extra or 'assert', ', '.join(bad)), e.loc())
+    ck.floor('R18.7', 'shape assertions on proof parts in the verification closures', nas, 2)
 
 
 CHUNKERS = {'chunks', 'chunks_exact', 'rchunks', 'rchunks_exact', 'windows', 'chunks_mut', 'chunks_exact_mut', 'step_by'}
